@@ -182,10 +182,11 @@ func opR3(level, tag, vec string) string {
 // ownScores: what Score() and Severity() of an object decoded from the same vector return at each
 // level up to the report's (C17 says a score field renders *that* score)
 func ownScores(level, vec string) string {
-	ss, sv := []string{}, []string{}
+	ss, sv, rs := []string{}, []string{}, []string{}
 	add := func(s float64, v int) {
 		ss = append(ss, fmt.Sprintf("%016x", math.Float64bits(s)))
 		sv = append(sv, strconv.Itoa(v))
+		rs = append(rs, hx(strconv.FormatFloat(s, 'f', -1, 64)))
 	}
 	switch level {
 	case "B":
@@ -204,7 +205,7 @@ func ownScores(level, vec string) string {
 		add(o.TemporalMetrics().Score(), int(o.TemporalMetrics().Severity()))
 		add(o.Score(), int(o.Severity()))
 	}
-	return "OWN.s=" + strings.Join(ss, ",") + " OWN.sv=" + strings.Join(sv, ",")
+	return "OWN.s=" + strings.Join(ss, ",") + " OWN.sv=" + strings.Join(sv, ",") + " OWN.r=" + strings.Join(rs, ",")
 }
 
 // ---- template export (C19): the library's result next to text/template called directly on the same report
